@@ -207,7 +207,7 @@ def tcp_case(sc):
                             what="instance %d: %d completed notifications (%d local) but %d complex events and %d action executions"
                                  % (k, sum(seen[k]["comp"].values()), seen[k]["local_comp"], ncx, nex), detail=None)
         return None
-    steps = list(sc["steps"]) + [("heal",), ("wait", 6), ("wait", 6), ("wait", 6)]   # backlogs are retried every 5 s
+    steps = list(sc["steps"]) + [("heal",), ("release", None), ("wait", 6), ("wait", 6), ("wait", 6)]   # backlogs are retried every 5 s
     for i, st in enumerate(steps):
         if st[0] == "in":
             cl.input(st[1], st[2])
@@ -215,6 +215,10 @@ def tcp_case(sc):
             cl.link(st[1], st[2], st[3])
         elif st[0] == "heal":
             cl.heal()
+        elif st[0] == "hold":
+            cl.hold(st[1])
+        elif st[0] == "release":
+            cl.release(st[1])
         else:
             cl.wait(st[1])
         fail = check(i)
@@ -228,6 +232,7 @@ def tcp_case(sc):
 def gen_tcp(ctx):
     rng = ctx.rng
     out = []
+    ab = dict(phen=[(1, [G.pattern(1, G.assign(["R", "R"], 0, "distinct"))])], maxcache=50, idbase=1000)
     shapes = [s for s in G.shapes(3) if len(s) >= 2 and all(k in ("R", "S") for k in s)]
     for k in range(150 if ctx.quick else 2500):
         n = rng.choice([2, 2, 3])
@@ -243,11 +248,21 @@ def gen_tcp(ctx):
             elif r < 0.4:
                 steps.append(("heal",))
             elif r < 0.5:
-                steps.append(("wait", rng.choice([1, 6, 6, 11])))
+                steps.append(("wait", rng.choice([1, 6, 6, 11, 61])))
+            elif r < 0.58:
+                steps.append(("hold", rng.randrange(n)))
+            elif r < 0.64:
+                steps.append(("release", None))
             steps.append(("in", rng.randrange(n), rng.randint(1, len(shape))))
         out.append(dict(cfg=cfg, n=n, steps=steps))
+    # several messages naming the same finished run wait in one incoming queue: the peer's own report and a third
+    # instance's snapshot (which remembers the run) while the receiver's main thread is busy
+    for st0 in ("down", "fail"):
+        out.append(dict(cfg=ab, n=3, steps=[("link", 2, 1, "down"), ("hold", 1), ("in", 0, 1), ("in", 0, 2), ("heal",),
+                                            ("wait", 11), ("release", 1), ("wait", 6)]))
+        out.append(dict(cfg=ab, n=3, steps=[("in", 0, 1), ("hold", 1), ("link", 0, 1, st0), ("in", 0, 2), ("wait", 6), ("heal",),
+                                            ("wait", 6), ("wait", 61), ("release", 1)]))
     # the plain sequence: a completion whose send fails after delivery, retried twice
-    ab = dict(phen=[(1, [G.pattern(1, G.assign(["R", "R"], 0, "distinct"))])], maxcache=50, idbase=1000)
     for st in ("fail", "down"):
         out.append(dict(cfg=ab, n=2, steps=[("in", 0, 1), ("link", 0, 1, st), ("in", 0, 2), ("wait", 6), ("wait", 6), ("heal",), ("wait", 6)]))
         out.append(dict(cfg=ab, n=3, steps=[("in", 0, 1), ("link", 0, 1, st), ("link", 0, 2, "fail"), ("in", 0, 2), ("in", 1, 1), ("wait", 6),
